@@ -1,0 +1,31 @@
+//go:build verif
+
+package simapp
+
+import (
+	abci "github.com/cometbft/cometbft/abci/types"
+)
+
+// ABCIRecorder, when set, observes every InitChain and FinalizeBlock request handled by a SimApp
+// together with its response (verification harness only: histories are recorded on one
+// application and replayed on fresh ones).
+var ABCIRecorder interface {
+	InitChain(app *SimApp, req *abci.RequestInitChain, res *abci.ResponseInitChain)
+	FinalizeBlock(app *SimApp, req *abci.RequestFinalizeBlock, res *abci.ResponseFinalizeBlock)
+}
+
+func (app *SimApp) InitChain(req *abci.RequestInitChain) (*abci.ResponseInitChain, error) {
+	res, err := app.BaseApp.InitChain(req)
+	if ABCIRecorder != nil && err == nil {
+		ABCIRecorder.InitChain(app, req, res)
+	}
+	return res, err
+}
+
+func (app *SimApp) FinalizeBlock(req *abci.RequestFinalizeBlock) (*abci.ResponseFinalizeBlock, error) {
+	res, err := app.BaseApp.FinalizeBlock(req)
+	if ABCIRecorder != nil && err == nil {
+		ABCIRecorder.FinalizeBlock(app, req, res)
+	}
+	return res, err
+}
